@@ -6,7 +6,9 @@ that the model's constant equals it (proved by reflexivity, so a changed source 
 the Coq build = broken tie with the item named).
 
 usage: gen_writers.py <repo> <out.v>
-exit: 0 ok; 2 an expected anchor was not found (anchor lost)."""
+exit: 0 ok; 2 an anchor that carries DATA (a constant, a range, a table entry) was not found (anchor lost: the
+model's constant can no longer be compared with the source); 3 only a TEXTUAL anchor changed (a statement the model
+mirrors is no longer spelled the way it was: reported as a note, the model/implementation correspondence decides)."""
 import re
 import sys
 
@@ -24,6 +26,21 @@ def rust_int(expr):
     if not re.fullmatch(r"[0-9xXa-fA-F\s()<>+\-*/]+", e):
         raise ValueError(expr)
     return int(eval(e.replace("/", "//"), {"__builtins__": {}}, {}))
+
+
+SOFT = []
+
+
+def soft_find(text, pattern, what, flags=re.S):
+    """a textual anchor: its loss is a note (exit 3), never a failure"""
+    if text is None or not re.search(pattern, text, flags):
+        SOFT.append(what)
+        print("anchor changed: %s" % what)
+
+
+def soft_section(text, start_pat, length=4000):
+    m = re.search(start_pat, text)
+    return text[m.start():m.start() + length] if m else None
 
 
 def find(text, pattern, what, flags=re.S):
@@ -90,8 +107,8 @@ def main():
     items.append(("best_max_partition_order", rust_int(find(best, r"max_partition_order: (\d+),", "best max_partition_order").group(1)), "o_max_partition_order options_best"))
     items.append(("best_max_lpc_order", rust_int(find(best, r"max_lpc_order: NonZero::new\((\d+)\),", "best max_lpc_order").group(1)), "match o_max_lpc_order options_best with Some v => v | None => 0 end"))
     # Encoder::encode refuses a frame larger than the stream's block size (repo fix 6387abb; Finalize.encoder_encode models it)
-    encf = section(enc, r"fn encode\(&mut self, frame: &Frame\) -> Result<\(\), Error> \{", "Encoder::encode", 1600)
-    find(encf, r"frame\.pcm_frames\(\) > usize::from\(self\.blocks\.streaminfo\(\)\.maximum_block_size\)", "Encoder::encode: a frame larger than the block size is refused")
+    encf = soft_section(enc, r"fn encode\(&mut self, frame: &Frame\) -> Result<\(\), Error> \{", 1600)
+    soft_find(encf, r"frame\.pcm_frames\(\) > usize::from\(self\.blocks\.streaminfo\(\)\.maximum_block_size\)", "Encoder::encode: a frame larger than the block size is refused")
     # the placeholder / finalize table caps
     if len(re.findall(r"\.take\(SeekTable::MAX_POINTS\)", enc)) < 3:
         # Encoder::new, finalize_inner (padding case), generate_seektable
@@ -102,8 +119,8 @@ def main():
     items.append(("BLOCKSIZE_MAX", rust_int(find(bsz, r"const MAX: u32 = ([^;]+);", "BlockSize::MAX").group(1)), "BLOCKSIZE_MAX"))
     items.append(("MAX_POINTS", rust_int(find(meta, r"pub const MAX_POINTS: usize = ([^;]+);", "SeekTable::MAX_POINTS").group(1)), "MAX_POINTS"))
     # SeekTable::to_writer refuses a defined point that carries the placeholder's mark (Meta.seektable_ok models the check)
-    stw = section(meta, r"impl ToBitStream for SeekTable \{", "SeekTable::to_writer", 1600)
-    find(stw, r"point\.sample_offset\(\) == Some\(u64::MAX\) => Err\(Error::InvalidSeekTablePoint\)", "SeekTable::to_writer: defined point with u64::MAX is refused")
+    stw = soft_section(meta, r"impl ToBitStream for SeekTable \{", 1600)
+    soft_find(stw, r"point\.sample_offset\(\) == Some\(u64::MAX\) => Err\(Error::InvalidSeekTablePoint\)", "SeekTable::to_writer: defined point with u64::MAX is refused")
     items.append(("U64_MAX", 2 ** 64 - 1, "U64_MAX"))
     items.append(("MAX_FRAME_SIZE", rust_int(find(meta, r"pub const MAX_FRAME_SIZE: u32 = ([^;]+);", "Streaminfo::MAX_FRAME_SIZE").group(1)), "MAX_FRAME_SIZE"))
     items.append(("STREAMINFO_SIZE", rust_int(find(meta, r"const SIZE: BlockSize = BlockSize\((0x[0-9a-fA-F]+)\);", "Streaminfo::SIZE").group(1)), "34"))
@@ -138,6 +155,8 @@ def main():
     if old != text:
         open(out, "w").write(text)
     print("gen_writers: %d items" % (len(items) + 1))
+    if SOFT:
+        sys.exit(3)
 
 
 if __name__ == "__main__":
